@@ -18,6 +18,8 @@ ENTRY = ['TBH2unp', 'TINTunp', 'TDVCS2unp', 'TBH2LP', 'TINTLP', 'TDVCS2LP', 'TBH
          'cINT0LP', 'cINT1LP', 'sINT1LP', 'cINT2LP', 'sINT2LP', 'cINT3LP', 'sINT3LP',
          'cDVCS0unp', 'cDVCS1unp', 'sDVCS1unp', 'cDVCS0LP', 'cDVCS1LP', 'sDVCS1LP',
          'ReCCALINTunp', 'ImCCALINTunp', 'ReDELCCALINTunp', 'ImDELCCALINTunp', 'CCALDVCSunp']
+KIN = ['tmin', 'tmax', 'K2', 'J', 'r', 'P1P2', 'anintP1P2', 'weight_BH', 'long2trans', 'HandFlux', 'prepare', 'xBmin']
+DVCS_ENTRY = ['PreFacSigma', '_XGAMMA_DVCS_t_Ex']
 
 
 def struct(name, fields):
@@ -32,14 +34,16 @@ def gen_bmk():
     static = {"not hasattr(pt, 's')": False, "'t' in pt": True, "'phi' in pt": True,
               'cff.HybridCFF in self.__class__.mro()': False}
     kin = py2lean.Module(os.path.join(SRC, 'kinematics.py'))
-    tk = py2lean.Translator(kin, consts=consts, static_conds=static, pt_fields=pt_fields, m_fields=m_fields)
+    # requested entry points get a definition of their own; every other module function of kinematics.py, and every
+    # method whose name starts with `_`, is a helper and is inlined where it is called (see py2lean.py)
+    tk = py2lean.Translator(kin, consts=consts, static_conds=static, pt_fields=pt_fields, m_fields=m_fields, targets=KIN)
     kin_names = {}
-    for fn in ['tmin', 'tmax', 'K2', 'J', 'r', 'P1P2', 'anintP1P2', 'weight_BH', 'long2trans', 'HandFlux', 'prepare', 'xBmin']:
+    for fn in KIN:
         if fn in kin.functions:
             kin_names[fn] = tk.gen_func(kin.functions[fn])
     bmk = py2lean.Module(os.path.join(SRC, 'bmk.py'))
     tb = py2lean.Translator(bmk, consts=consts, static_conds=static, pt_fields=pt_fields, m_fields=m_fields,
-                            module_funcs={k: (v[0], None) for k, v in kin_names.items()})
+                            module_funcs={k: (v[0], None) for k, v in kin_names.items()}, targets=ENTRY)
     produced, rejected = {}, {}
     for cls in FORMULA_SETS:
         produced[cls] = {}
@@ -53,9 +57,9 @@ def gen_bmk():
             except py2lean.Reject as ex:
                 rejected[(cls, e)] = str(ex)
     dv = py2lean.Module(os.path.join(SRC, 'dvcs.py'))
-    td = py2lean.Translator(dv, consts=consts, static_conds=static, pt_fields=pt_fields, m_fields=m_fields)
+    td = py2lean.Translator(dv, consts=consts, static_conds=static, pt_fields=pt_fields, m_fields=m_fields, targets=DVCS_ENTRY)
     dv_names = {}
-    for e in ['PreFacSigma', '_XGAMMA_DVCS_t_Ex']:
+    for e in DVCS_ENTRY:
         dv_names[e] = td.gen_method('DVCS', e)
     # every field the formulas read, plus those prepare() writes
     for f in ['xB', 'Q2', 't', 'W', 's', 'phi', 'varphi', 'in1polarization', 'in1charge']:
